@@ -94,6 +94,9 @@ CliEv ==
   /\ IF Ev.clone_exit # 0 THEN Flag("C17 CLI: bita clone failed on a format-conforming archive")
      ELSE IF ~Ev.out_eq_src THEN Flag("C17 CLI: bita clone produced other bytes than the source the archive describes")
      ELSE IF Ev.info_exit # 0 THEN Flag("C17 CLI: bita info failed on a format-conforming archive")
+     \* what `bita info` prints (the fields it covers) equals what the archive records, as the library's accessors must
+     ELSE IF "info" \in DOMAIN Ev /\ \E k \in DOMAIN Ev.info : k \notin DOMAIN expect \/ Ev.info[k] # expect[k]
+          THEN Flag("C17 CLI: bita info prints other values than the archive records")
      ELSE NoFlag
   /\ UNCHANGED <<sc, out, scan, rem, written, run, provided, requested, faulted, nscen, nok, expect, unused>>
 
